@@ -44,7 +44,7 @@ ASSUMPTIONS = [
 ]
 BUDGET = {
     "quick": dict(cases=900, shards=4, timeout=600),
-    "thorough": dict(cases=15000, shards=16, timeout=3000),
+    "thorough": dict(cases=45000, shards=16, timeout=3000),
 }
 _HOSTILE = ["pad_gt_T", "wholly_right", "wholly_right_reflect", "wholly_left", "negative_start", "end_beyond",
             "empty_slice", "inverted_slice", "len0_row", "all_rows_empty", "extra_dims", "module_form", "noncontig",
